@@ -122,3 +122,17 @@ prop("C12", modules=["names"],
      design_ref="DESIGN.md section 6, C12",
      trusted=["backtracking semantics of re.match on the supported regex subset: the returned match is the most preferred feasible choice vector (pyvc/regex.py)"],
      assumptions=[])
+
+MC = "serialization:MementoCodec."
+WIRE_KINDS = ["datetime", "memento", "invocation_metadata", "fn_reference_with_args", "fn_reference_with_arg_hash", "resource_handle", "fn_reference", "recursive_context",
+              "versioned_data_source_key", "arg"]
+prop("C11", modules=["wire"],
+     functions=[MC + d + "_" + k for k in WIRE_KINDS for d in ("encode", "decode")],
+     split={MC + "decode_fn_reference_with_args": 14, MC + "encode_fn_reference_with_args": 10, MC + "decode_fn_reference": 10, MC + "decode_arg": 8, MC + "encode_arg": 6},
+     design_ref="DESIGN.md section 6, C11",
+     trusted=["round trip decode(encode(x)) ~ x from the two directions WIRE_X(encode(x), x) and WIRE_X(s, decode(s)): structural induction over the fixed document shapes (stated lemma)",
+              "dateutil.parser.parse / isoformat, base64, numpy array construction, json.dumps/loads: assumed (relations dtwire, b64wire, items preserved)",
+              "FunctionReference.from_qualified_name returns a reference with the given name and partial arguments (C12 proves naming and exception freedom)"],
+     assumptions=["the argument hash recomputed from decoded arguments equals the original one: follows from C04 (hash is a function of the normalised argument values) and is not re-proved here",
+                  "field names are pinned from the current code (the repository has no separate written wire-format specification)",
+                  "values compared with == against strings are plain data (no class with an exotic __eq__)"])
